@@ -4,6 +4,7 @@ import (
 	"encoding/json"
 	"fmt"
 	"os"
+	"strings"
 
 	"github.com/go-openapi/spec"
 
@@ -64,6 +65,7 @@ func Shrink(path string) {
 			Root      string                 `json:"root"`
 			Documents map[string]interface{} `json:"documents"`
 			Options   string                 `json:"options"`
+			Refuses   []string               `json:"loader_refuses"`
 		} `json:"witness"`
 	}
 	if err := json.Unmarshal(b, &w); err != nil {
@@ -72,22 +74,48 @@ func Shrink(path string) {
 	}
 	var o expandOpts
 	fmt.Sscanf(w.Witness.Options, "skip=%t continue=%t absolute=%t", &o.Skip, &o.Continue, &o.Absolute)
+	o.Refuse = map[string]bool{}
+	for _, u := range w.Witness.Refuses {
+		o.Refuse[u] = true
+	}
 	docs := w.Witness.Documents
+	contMode := len(w.Class) > 13 && w.Class[:13] == "continue-mode"
 	wantErr := len(w.Class) > 8 && w.Class[:8] == "spurious"
 	fails := func() bool {
 		world := &gen.World{Docs: docs, Root: w.Witness.Root, Features: map[string]int{}}
 		in := oworld(world)
+		for u := range o.Refuse {
+			delete(in.Docs, u)
+		}
 		starts := oracle.SpecStarts(in, world.Root, true)
 		refs, _ := in.Reachable(starts, o.Skip)
 		for _, r := range refs {
-			if !r.Resolvable {
+			if !r.Resolvable && !contMode {
 				return false
 			}
 		}
-		for i := 0; i < 5; i++ {
+		for i := 0; i < 3; i++ {
 			r := runExpandSpec(world, o)
 			if r.Panic != "" {
 				return false
+			}
+			if contMode {
+				if r.Err != nil {
+					return false
+				}
+				outW := withRoot(in, world.Root, r.Out)
+				bad := false
+				for _, st := range starts {
+					if m := oracle.BisimilarOpts(in, st.St, outW, st.St, st.Kind, oracle.BisimOpts{UnresByText: true, WildcardNonSchemaUnres: true}); m != nil {
+						if strings.Contains(w.Class, "not left verbatim") == strings.Contains(m.Reason, "not left verbatim") {
+							bad = true
+						}
+					}
+				}
+				if !bad {
+					return false
+				}
+				continue
 			}
 			if wantErr {
 				if r.Err == nil {
@@ -155,9 +183,35 @@ func Shrink(path string) {
 			}
 			return false
 		}
+		// top-level elements first (cheap), deep members only once nothing else goes
+		topChanged := false
 		for _, d := range docs {
-			for try(d) {
-				changed = true
+			dm, _ := d.(map[string]interface{})
+			for sec, sv := range dm {
+				sm, ok := sv.(map[string]interface{})
+				if !ok {
+					continue
+				}
+				for name, el := range sm {
+					delete(sm, name)
+					if fails() {
+						topChanged = true
+					} else {
+						sm[name] = el
+					}
+				}
+				_ = sec
+			}
+		}
+		if topChanged {
+			changed = true
+			continue
+		}
+		if os.Getenv("SHRINK_DEEP") != "" {
+			for _, d := range docs {
+				for try(d) {
+					changed = true
+				}
 			}
 		}
 	}
